@@ -77,6 +77,13 @@ func (p *Path) unop(fr *frame, in *ssa.UnOp) Value {
 		if !ok || ch == nil {
 			panic(p.abort("receive on nil/unknown channel"))
 		}
+		if len(ch.Buf) == 0 && ch.Closed {
+			z := p.zero(in.X.Type().Underlying().(*types.Chan).Elem())
+			if in.CommaOk {
+				return TupleV{z, FalseT}
+			}
+			return z
+		}
 		if len(ch.Buf) == 0 {
 			panic(p.abort("receive would block (sequential channel model)"))
 		}
@@ -972,6 +979,17 @@ func (p *Path) builtin(fr *frame, b *ssa.Builtin, args []Value, cc *ssa.CallComm
 		}
 		return nil
 	case "close":
+		ch, ok := args[0].(*ChanObj)
+		if !ok {
+			panic(p.abort("close of " + describe(args[0])))
+		}
+		if ch == nil {
+			panic(&goPanic{msg: "close of nil channel", stack: p.where()})
+		}
+		if ch.Closed {
+			panic(&goPanic{msg: "close of closed channel", stack: p.where()})
+		}
+		ch.Closed = true
 		return nil
 	case "panic":
 		panic(&goPanic{val: args[0], msg: p.panicString(args[0]), stack: p.where()})
